@@ -7,11 +7,12 @@
 //verif:cover VerifC06LabelCrash label-write-lost label-write-landed
 //verif:assume index packer unit: the real fileIndex.Upload (pack, uploadIndex, writeMetadata) with 2 entries per index file (the field is set by the harness; 1000 in production), 0..5 entries, and a transient fault at a solver-chosen index-file write
 //verif:cover VerifC06PackFaults full-list-write-failed final-list-write-failed no-fault
-//verif:cover VerifC06UploadCrash crashed-before-descriptor crashed-between-index-files completed descriptor-landed-then-crash transient-fault final-partial-list old-bundle-empty
+//verif:cover VerifC06UploadCrash crashed-before-descriptor crashed-between-index-files completed descriptor-landed-then-crash transient-fault final-partial-list old-bundle-empty coordinator-busy-during-file-uploads
 package core
 
 import (
 	"context"
+	"time"
 
 	"github.com/oneconcern/datamon/pkg/core/status"
 	"github.com/oneconcern/datamon/pkg/model"
@@ -32,6 +33,7 @@ func VerifC06UploadCrash() {
 		E = 3
 		vCover("final-partial-list")
 	}
+	workers := 2 // concurrent file uploads
 	upload := func(files map[string][]byte, order []string) (*Bundle, error) {
 		src := newVStore("src")
 		for _, n := range order {
@@ -39,7 +41,7 @@ func VerifC06UploadCrash() {
 		}
 		b := NewBundle(Repo("r"), ContextStores(stores), ConsumableStore(src), Logger(zap.NewNop()),
 			BundleDescriptor(model.NewBundleDescriptor(model.Message("m"), model.BundleContributor(model.Contributor{Name: "n", Email: "e@x.io"}))),
-			ConcurrentFileUploads(2))
+			ConcurrentFileUploads(workers))
 		b.BundleDescriptor.LeafSize = 64
 		err := implUpload(ctx, b, E, nil)
 		return b, err
@@ -80,8 +82,18 @@ func VerifC06UploadCrash() {
 	}
 	cr.install()
 	meta.ops = nil
+	if vChoose("slowMetadataWrites", 2) == 1 {
+		// metadata writes take a while: the upload's coordinating goroutine is busy inside them while the file
+		// workers go on (symbolically the sleep hands the processor to the other goroutines)
+		vCover("coordinator-busy-during-file-uploads")
+		meta.sched = func() { time.Sleep(150 * time.Millisecond) }
+		meta.schedMutatingOnly = true
+		workers = 1 // the next file starts only once the previous one is handed over: its blob writes fall into the busy period
+	}
 	vNextSecond()
 	nb, uerr := upload(newFiles, newOrder)
+	meta.sched = nil
+	workers = 2
 	cr.revive()
 	if cr.crashAt > 0 && !cr.crashed {
 		vAssume(false) // the upload makes fewer mutating calls than crashAt: same as no crash
